@@ -132,6 +132,12 @@ func areaArea(context *api.Context, area b6.Area) (float64, error) {
 
 // Return a rectangle polygon with the given top left and bottom right points.
 func rectanglePolygon(context *api.Context, a b6.Geometry, b b6.Geometry) (b6.Area, error) {
+	if err := requireGeometry("rectangle-polygon", a); err != nil {
+		return nil, err
+	}
+	if err := requireGeometry("rectangle-polygon", b); err != nil {
+		return nil, err
+	}
 	r := s2.EmptyRect().AddPoint(s2.LatLngFromPoint(a.Point())).AddPoint(s2.LatLngFromPoint(b.Point()))
 	points := make([]s2.Point, 4)
 	for i := range points {
